@@ -349,6 +349,7 @@ func (h *Hist) scan(faults map[int]bool, failDesc map[string]bool) (string, erro
 		h.rec.FailDesc[k] = v
 	}
 	h.rec.Conflict = conflict
+	h.rec.AwsCode = h.r.pick("", "", "Throttling", "RequestLimitExceeded", "ExpiredToken", "ValidationError", "ThrottlingException")
 	// informer caches hand out shared objects: the controller must treat them as read-only
 	snapNodes := make([]*v1.Node, len(h.nodeL.nodes))
 	for i, n := range h.nodeL.nodes {
@@ -357,6 +358,20 @@ func (h *Hist) scan(faults map[int]bool, failDesc map[string]bool) (string, erro
 	snapPods := make([]*v1.Pod, len(h.podL.pods))
 	for i, p := range h.podL.pods {
 		snapPods[i] = p.DeepCopy()
+	}
+	// what the cloud really holds when the scan starts ("the group's current desired size", its bounds and members)
+	cloud := []PAsg{}
+	{
+		names := []string{}
+		for n, g := range h.aws.asgs {
+			if !g.Gone {
+				names = append(names, n)
+			}
+		}
+		sort.Strings(names)
+		for _, n := range names {
+			cloud = append(cloud, h.aws.protoAsg(h.aws.asgs[n]))
+		}
 	}
 	h.buildErr = nil
 	var runErr error
@@ -540,6 +555,7 @@ func (h *Hist) scan(faults map[int]bool, failDesc map[string]bool) (string, erro
 	}
 	line["lists"] = lists
 	line["mutated"] = mutated
+	line["cloud"] = cloud
 	h.emit(line)
 	return outcome, nil
 }
